@@ -23,6 +23,7 @@ type FuncResult struct {
 	Loops       int
 	LoopsNoVariant []int
 	RangeLoops       int
+	VariantCalls     int
 	LoopsWithVariant int
 	Paths       int
 	Cuts        int
@@ -864,6 +865,20 @@ func verifyFunc(w *World, sp *Specs, fn *ssa.Function, spec *FuncSpec, safety bo
 				x.assumeIn(st, x.evalBool(env, c.E))
 			}
 		}
+		for _, c := range spec.Assumes {
+			x.assumeIn(st, x.evalBool(env, c.E))
+			x.note("assumed at the entry of %s, not checked at its call sites: %s", x.key, c.Src)
+		}
+		// recursion variant: the measure at entry, each component bounded below under the precondition
+		for i, c := range spec.Measure {
+			v, _ := x.eval(env, c.E)
+			m, ok := v.(*Term)
+			if !ok {
+				panic("contract: decreases component is not an integer: " + c.Src)
+			}
+			x.entryMeasure = append(x.entryMeasure, m)
+			x.oblige(st, "variant", fmt.Sprintf("bounded.%d", i+1), mkCmp("<=", mkInt(0), m), "recursion variant component is bounded below at entry: "+c.Src, fn.Pos())
+		}
 	}
 	x.entry = st.snap()
 	// vacuity probe: the precondition must be satisfiable
@@ -908,6 +923,7 @@ func verifyFunc(w *World, sp *Specs, fn *ssa.Function, spec *FuncSpec, safety bo
 	}
 	res.Paths = x.paths
 	res.Cuts = x.cuts
+	res.VariantCalls = x.variantCalls
 	return res
 }
 
